@@ -24,7 +24,8 @@ from symx import core
 PROPERTY = "C05"
 TITLE = "Bindings live exactly as long as one jaxtyped call or context block"
 
-KINDS = ["new-typeguard", "new-beartype", "old-typeguard", "none", "dataclass", "method", "old-beartype"]
+KINDS = ["new-typeguard", "new-beartype", "old-typeguard", "none", "dataclass", "method", "old-beartype",
+         "bare-typeguard", "bare-beartype"]
 EXITS = ["return", "ValueError", "KeyboardInterrupt", "GeneratorExit", "SystemExit"]
 CHECKS = ["a", "b", "a b", "a {n}", "c", "#a c"]
 
@@ -59,6 +60,10 @@ def instances(tier, seed):
             out.append(("core", dict(prog=[["ctx", [["check", "a"], ["call", k, inner, ex], ["observe"], ["check", "a"]], "return"]])))
             # at top level
             out.append(("core", dict(prog=[["call", k, inner, ex], ["observe"], ["check", "a"]])))
+    for k in KINDS:
+        # {n} belongs to the call; a context block nested in it has no arguments of its own
+        out.append(("core", dict(prog=[["call", k, [["check", "a {n}"], ["ctx", [["check", "a {n}"], ["observe"]], "return"],
+                                                    ["call", "none", [["check", "a {n}"], ["observe"]], "return"], ["observe"]], "return"], ["observe"]])))
     for k1, k2 in itertools.product(KINDS, repeat=2):
         for ex in ("return", "ValueError", "KeyboardInterrupt"):
             g = "core" if (tier == "thorough" or rng.random() < 0.25) else "ext"
@@ -104,7 +109,10 @@ def get_fn(kind, ARR, gen=False, coro=False):
     import jaxtyping as jt
     A = jt.Float[ARR, "a b"]
     g = {"A": A, "dataclasses": dataclasses}
-    if gen:
+    if kind.startswith("bare-"):
+        # no annotation at all: nothing to check, but the call still has its own context
+        src = "def f(x, n, body):\n    return body()\n"
+    elif gen:
         src = "def f(x: A, n, body):\n    body()\n    yield 1\n"
     elif coro:
         src = "async def f(x: A, n, body):\n    body()\n"
@@ -218,7 +226,7 @@ def scenario(inst, V):
                 def docall(fn=fn, x=x, n=n, inner=inner, kind=kind, xs=xs):
                     depth = len(stack)
                     fr = Frame({"n": core.lift(n)})
-                    if kind != "none":
+                    if kind != "none" and not kind.startswith("bare-"):
                         fr.B = D.step(D.parse_ref("a b"), [core.lift(s) for s in xs], fr.B)["B"]
                     stack.append(fr)
                     try:
